@@ -208,6 +208,23 @@ fn eval(name: &str, a: &[Value]) -> Value {
             }
         }
         "execute_all" => crate::exec::execute_all(&a[0]),
+        // render a TestCaseConfig as one-liner, put it on a scrut fence, parse the document back, compare
+        "one_liner_roundtrip" => {
+            use scrut::parsers::parser::Parser;
+            let config = crate::cfg::tcc_from(&a[0]);
+            let rendered = config.to_yaml_one_liner();
+            let doc = format!("```scrut {}\n$ true\n```\n", rendered);
+            let maker = std::sync::Arc::new(scrut::expectation::ExpectationMaker::new(scrut::rules::registry::RuleRegistry::default()));
+            let parser = scrut::parsers::markdown::MarkdownParser::new(maker, &["scrut"], Some(scrut::config::TestCaseConfig::empty()));
+            match parser.parse(&doc) {
+                Ok((_d, tests)) if tests.len() == 1 => {
+                    let back = &tests[0].config;
+                    json!({"equal": *back == config, "rendered": rendered, "parsed": crate::cfg::tcc_to(back)})
+                }
+                Ok((_d, tests)) => json!({"equal": false, "rendered": rendered, "parsed": format!("{} tests", tests.len())}),
+                Err(e) => json!({"equal": false, "rendered": rendered, "parsed": format!("error: {:#}", e)}),
+            }
+        }
         // [output bytes, "ascii"|"unicode", "markdown"|"cram"]: create a test from (command `cmd`, this output), parse the
         // generated document back and validate it against the same output
         "generate_and_validate" => {
